@@ -2,7 +2,8 @@
 import re
 
 from .. import lib, mir
-from ..mir import render, strip_generics
+from .. import lib_proto as P
+from ..mir import strip_generics
 
 EXPLANATION = ("Handler::handle_incoming_info returns true only on the edge where remote_peer_id != info.public_key.to_peer_id() is false and "
                "stores remote_info only there; remote_peer_id is the swarm-authenticated peer given to handle_established_*; every "
@@ -32,127 +33,134 @@ SELFTEST = [
 ]
 
 
-def ret_defs(b):
-    out = []
-    for d in b.defs.get(0, []):
-        s = mir.Site(b, d[1], d[2])
-        out.append((s, b.site_expr(s)))
-    return out
+def evt(e, adt, variant):
+    """Payload dicts of all `adt::variant{..}` aggregates inside expression e."""
+    return [dict(x[4]) for x in mir.walk(e) if x[0] == "agg" and x[1] == "adt" and strip_generics(x[2]) == adt and x[3] == variant]
 
 
 def check(ctx):
-    prog = ctx.prog
-    mir.RENDER_MAX[0] = 40
-    try:
-        _check(ctx, prog)
-    finally:
-        mir.RENDER_MAX[0] = 14
+    _check(ctx, ctx.prog)
 
 
 def _check(ctx, prog):
-    # ================================================================= handle_incoming_info
+    HADT = r"^libp2p_identify::handler::Handler$"
+    F_RPID = P.field_by_type(prog, ID, HADT, r"^libp2p_core::PeerId$")          # remote_peer_id
+    F_RINFO = P.field_by_type(prog, ID, HADT, r"Option<protocol::Info>$")         # remote_info
+    # ================================================================= handle_incoming_info(self, info = $2)
     hi = ctx.body(ID, r"^libp2p_identify::handler::Handler::handle_incoming_info$")
-    NE = r"^std::cmp::PartialEq::ne\(self\.remote_peer_id, libp2p_identity::PublicKey::to_peer_id\(info\.public_key\)\)$|^<libp2p_core::PeerId as std::cmp::PartialEq>::ne\(self\.remote_peer_id, libp2p_identity::PublicKey::to_peer_id\(info\.public_key\)\)$"
-    EQ = NE.replace("::ne\\(", "::eq\\(")
+    H = P.Norm(hi)
+    SIDES = {"self." + F_RPID, "libp2p_identity::PublicKey::to_peer_id($2.public_key)"}
 
-    def same_peer(c, r, l):
-        return (l == "false" and re.search(NE, r) is not None) or (l == "true" and re.search(EQ, r) is not None)
+    def same(op, a, b):
+        return op == "Eq" and {H.r(a), H.r(b)} == SIDES
 
-    def other_peer(c, r, l):
-        return (l == "true" and re.search(NE, r) is not None) or (l == "false" and re.search(EQ, r) is not None)
-    rd = ret_defs(hi)
-    trues = [(s, e) for s, e in rd if e[0] == "const" and e[1] == 1]
-    falses = [(s, e) for s, e in rd if e[0] == "const" and e[1] == 0]
-    ctx.ob("incoming", "result is a literal bool", len(trues) + len(falses) == len(rd) and len(trues) >= 1 and len(falses) >= 1, "%s:%d" % (hi.file, hi.line), str([render(e) for _, e in rd]))
+    def other(op, a, b):
+        return op == "Ne" and {H.r(a), H.r(b)} == SIDES
+    e_same, e_other = P.rel_edges(hi, same), P.rel_edges(hi, other)
+    rd = P.ret_exprs(hi)
+    trues = [(s, e) for s, e in rd if P.const_val(e) == 1]
+    falses = [(s, e) for s, e in rd if P.const_val(e) == 0]
+    ctx.ob("incoming", "result is a literal bool", len(trues) + len(falses) == len(rd) and len(trues) >= 1 and len(falses) >= 1, "%s:%d" % (hi.file, hi.line), str([H.r(e) for _, e in rd]))
     for s, _ in trues:
-        ctx.guarded("incoming", "true only when the key derives the connection's peer id", s, same_peer, "remote_peer_id == info.public_key.to_peer_id()")
-    mism = hi.guard_edges(other_peer)
-    ctx.ob("incoming", "floor:mismatch edge", len(mism) == 1, nontrivial=False, msg=str(sorted(mism)))
-    for _, t in mism:
-        got = lib.count_range(hi, [t], hi.return_blocks(), lib.bbs([s for s, _ in falses]))
-        eff = [s for s in hi.call_sites() if s.bb in hi.reachable([t])]
-        ctx.ob("incoming", "a foreign key is rejected without any effect", got == (1, 1) and not eff, "%s:%d" % (hi.file, hi.line),
-               "on the mismatch edge: `false` results %s, calls %s" % (got, [strip_generics(hi.call_name(s.term)) for s in eff]))
-    rep = [s for s in hi.call_sites(r"Option::replace$|Option::insert$") if render(hi.site_expr(s)[2][0]) == "self.remote_info"]
+        ok = P.must_pass(hi, s.bb, e_same)
+        ctx.ob("incoming", "true only when the key derives the connection's peer id", ok, s.loc(), "`true` is returned only on the remote_peer_id == info.public_key.to_peer_id() edge" if ok else "`true` reachable without remote_peer_id == info.public_key.to_peer_id()")
+    ctx.ob("incoming", "floor:mismatch edge", len(e_other) >= 1, nontrivial=False, msg=str(sorted(e_other)))
+    if e_other:
+        tg = P.targets(e_other)
+        got = lib.count_range(hi, tg, hi.return_blocks(), lib.bbs([s for s, _ in falses]))
+        region = hi.reachable(tg)
+        eff = P.effect_calls(hi, region)
+        wr = [s for s in hi.field_write_sites(F_RINFO) if s.bb in region]
+        ctx.ob("incoming", "a foreign key is rejected without any effect", got == (1, 1) and not eff and not wr, "%s:%d" % (hi.file, hi.line),
+               "on the mismatch edge: `false` results %s, non-logging calls %s" % (got, [strip_generics(hi.call_name(s.term)) for s in eff]))
+    rep = [s for s in hi.call_sites(r"Option::(replace|insert|get_or_insert)$") if H.r(hi.site_expr(s)[2][0]) == "self." + F_RINFO] + [s for s in hi.field_write_sites(F_RINFO) if s.si is not None]
     ctx.floor("incoming", "remote_info store", rep, 1)
     for s in rep:
-        ctx.guarded("incoming", "remote_info stored only for an authenticated key", s, same_peer, "remote_peer_id == info.public_key.to_peer_id()")
-        ctx.ob("incoming", "the stored info is the checked info", render(hi.site_expr(s)[2][1]) == "libp2p_identify::<protocol::Info as std::clone::Clone>::clone(info)", s.loc(), render(hi.site_expr(s)[2][1]))
-    # who else touches remote_info / remote_peer_id
+        ok = P.must_pass(hi, s.bb, e_same)
+        ctx.ob("incoming", "remote_info stored only for an authenticated key", ok, s.loc(), "the store is reachable only on the same-peer edge" if ok else "remote_info can be stored for a key that does not derive the connection's peer id")
+        txt = H.site(s)
+        ctx.ob("incoming", "the stored info is the checked info", "clone($2)" in txt, s.loc(), txt[:160])
     wr = {}
     for b in prog.bodies(ID):
         if b.kind not in ("method", "fn", "closure", "coroutine"):
             continue
-        for s in lib.field_mut_calls(b, "remote_info") + b.field_write_sites("remote_info"):
+        for s in lib.field_mut_calls(b, F_RINFO) + b.field_write_sites(F_RINFO):
             wr.setdefault(b.npath, []).append(s)
     ctx.ob("incoming", "remote_info mutated only by handle_incoming_info", set(wr) == {hi.npath}, msg=str(sorted(wr)))
     wp = {}
     for b in prog.bodies(ID):
-        for s in lib.field_mut_calls(b, "remote_peer_id") + b.field_write_sites("remote_peer_id"):
+        for s in lib.field_mut_calls(b, F_RPID) + b.field_write_sites(F_RPID):
             wp.setdefault(b.npath, []).append(s)
     ctx.ob("incoming", "remote_peer_id never reassigned", not wp, msg=str(sorted(wp)))
     hn = ctx.body(ID, r"^libp2p_identify::handler::Handler::new$")
-    ag = hn.agg_sites(r"^libp2p_identify::handler::Handler$")
+    ag = [x for _, e in P.ret_exprs(hn) for x in mir.walk(e) if x[0] == "agg" and x[1] == "adt" and strip_generics(x[2]) == "libp2p_identify::handler::Handler"]
     ok = False
-    txt = ""
+    idx = None
     if len(ag) == 1:
-        f = dict(hn.site_expr(ag[0])[4])
-        txt = render(f.get("remote_peer_id", ("unknown", "?")))
-        ok = f.get("remote_peer_id", ("x",))[0] == "arg" and f["remote_peer_id"][1] == 2
-    ctx.ob("incoming", "Handler.remote_peer_id = constructor argument #2", ok, ag[0].loc() if ag else "", txt)
+        v = dict(ag[0][4]).get(F_RPID)
+        ok = v is not None and v[0] == "arg"
+        idx = v[1] if ok else None
+    ctx.ob("incoming", "Handler.remote_peer_id is a constructor argument", ok, "%s:%d" % (hn.file, hn.line), "argument #%s" % idx)
     callers = prog.callers(ID, r"^libp2p_identify::handler::Handler::new$")
     ctx.floor("incoming", "Handler::new call sites", callers, 2)
     for s in callers:
-        a = s.body.site_expr(s)[2][1]
         fn = s.body.short.split("::")[-1]
-        ctx.ob("incoming", "%s: handler bound to the connection's authenticated peer" % fn, fn.startswith("handle_established_") and a[0] == "arg" and a[2] == "peer" and a[1] == 3, s.loc(),
-               "Handler::new(.., %s, ..) in %s" % (render(a), fn))
+        a = s.body.site_expr(s)[2][idx - 1] if idx else ("unknown", "?")
+        # NetworkBehaviour::handle_established_{in,out}bound_connection(self, connection_id, peer, ..): the peer is parameter #3
+        ctx.ob("incoming", "%s: handler bound to the connection's authenticated peer" % fn, fn.startswith("handle_established_") and a[0] == "arg" and a[1] == 3, s.loc(),
+               "Handler::new(.., %s, ..) in %s" % (P.nr(s.body, a), fn))
 
     # ================================================================= Handler::poll: Identified only after the check
     hp = ctx.body(ID, r"<handler::Handler as libp2p_swarm::ConnectionHandler>::poll$")
-    # the aggregate may be nested directly in the Poll::Ready literal: search result defs instead
+    HP = P.Norm(hp, ids=True)
     sites = []
-    for s, e in ret_defs(hp):
-        for x in mir.walk(e):
-            if x[0] == "agg" and x[1] == "adt" and strip_generics(x[2]) == "libp2p_identify::handler::Event" and x[3] == "Identified":
-                sites.append((s, dict(x[4])["0"]))
+    for s, e in P.ret_exprs(hp):
+        for f in evt(e, "libp2p_identify::handler::Event", "Identified"):
+            sites.append((s, f["0"]))
     ctx.floor("identified", "Event::Identified results in Handler::poll", sites, 2)
     chk = hp.call_sites(r"Handler::handle_incoming_info$")
     ctx.floor("identified", "handle_incoming_info calls", chk, 2)
     merges = hp.call_sites(r"protocol::Info::merge$")
     ctx.floor("identified", "Info::merge call", merges, 1)
+    seen_arms = set()
     for s, payload in sites:
-        pr = render(payload)
-        arm = "ReceivedIdentifyPush" if payload[0] == "local" else ("ReceivedIdentify" if "@ReceivedIdentify.0" in pr else "?")
-        mine = [c for c in chk if render(hp.site_expr(c)[2][1]) == pr]
+        pr = HP.r(payload)
+        arm = "ReceivedIdentifyPush" if payload[0] == "local" else ("ReceivedIdentify" if "@ReceivedIdentify" in pr else "?")
+        seen_arms.add(arm)
+        mine = [c for c in chk if HP.r(hp.site_expr(c)[2][1]) == pr]
         ok = len(mine) == 1
         if ok:
-            te = lib.switch_edges_on_site(hp, mine[0], {"true"})
-            ok = bool(te) and hp.must_pass_edges(s.bb, te)
+            te = P.truth_edges(hp, P.is_call_at(mine[0]), True)
+            ok = P.must_pass(hp, s.bb, te)
         ctx.ob("identified", "%s: guarded by handle_incoming_info" % arm, ok, s.loc(),
-               "Identified(%s) is reachable only through the true edge of handle_incoming_info(&%s)" % (pr[-40:], pr[-40:]) if ok else
-               "Identified(%s) reachable without a successful handle_incoming_info on the same Info" % pr[-60:])
+               "Identified(info) is reachable only through the true edge of handle_incoming_info(&info) on the same Info" if ok else
+               "Identified(info) reachable without a successful handle_incoming_info on the same Info")
         if mine:
-            tt = [t for _, t in lib.switch_edges_on_site(hp, mine[0], {"true"})]
+            tt = P.targets(P.truth_edges(hp, P.is_call_at(mine[0]), True))
             between = hp.reachable(tt, stop_nodes=[s.bb]) if tt else set()
             mut = [m for m in merges if m.bb in between]
             ctx.ob("identified", "%s: Info not modified between check and delivery" % arm, not mut, s.loc(), "Info::merge calls after the check: %d" % len(mut))
             if payload[0] == "local":
-                ctx.ob("identified", "%s: the merged Info is what is checked" % arm, all(render(hp.site_expr(m)[2][0]) == pr for m in merges) and
-                       all(hp.dominates(m.bb, mine[0].bb) for m in merges), mine[0].loc(), "merge(%s) dominates the check" % pr)
+                ctx.ob("identified", "%s: the merged Info is what is checked" % arm, all(HP.r(hp.site_expr(m)[2][0]) == pr for m in merges) and
+                       all(hp.dominates(m.bb, mine[0].bb) for m in merges), mine[0].loc(), "merge(info, push) dominates the check of the same local")
+    ctx.ob("identified", "floor:both identify and push deliveries found", seen_arms == {"ReceivedIdentify", "ReceivedIdentifyPush"}, nontrivial=False, msg=str(sorted(seen_arms)))
     who = set()
     for b in prog.bodies(ID):
         if b.agg_sites(r"^libp2p_identify::handler::Event$", "Identified"):
             who.add(b.npath)
     ctx.ob("identified", "handler::Event::Identified constructed only in Handler::poll", who == {hp.npath}, msg=str(sorted(who)))
 
-    # ================================================================= Behaviour: retain before Received
+    # ================================================================= Behaviour::on_connection_handler_event(self, peer_id = $2, connection_id = $3, event = $4)
     bh = ctx.body(ID, r"<behaviour::Behaviour as libp2p_swarm::NetworkBehaviour>::on_connection_handler_event$")
-    ents = lib.arm_entry(bh, r"^discr\(event\)$", "Identified")
+    B = P.Norm(bh, ids=True)
+    QUEUE = "self." + P.field_by_type(prog, ID, r"^libp2p_identify::behaviour::Behaviour$", r"VecDeque<libp2p_swarm::ToSwarm<")
+    ents = P.targets(P.variant_edges(bh, lambda e: e[0] == "arg" and e[1] == 4, {"Identified"}))
     ctx.ob("received", "floor:Identified arm", len(ents) == 1, nontrivial=False, msg=str(ents))
-    recv = [s for s in bh.call_sites(r"VecDeque::push_back$") if "libp2p_identify::behaviour::Event::Received{" in render(bh.site_expr(s))]
+    recv = [s for s in bh.call_sites(r"VecDeque::push_back$") if B.r(bh.site_expr(s)[2][0]) == QUEUE and evt(bh.site_expr(s)[2][1], "libp2p_identify::behaviour::Event", "Received")]
     ctx.floor("received", "Event::Received push", recv, 1, exact=True)
-    ret = [s for s in bh.call_sites(r"Vec::retain$") if render(bh.site_expr(s)[2][0]) == "info.listen_addrs"]
+    # the Identified payload is bound to a (mutable) local
+    infos = [l for l in bh.names if B.r(bh.init_expr(l)) == "$4@Identified"]
+    ret = [s for s in bh.call_sites(r"Vec::retain$") if (lambda a: a[0] == "field" and a[2] == "listen_addrs" and a[1][0] == "local" and a[1][1] in infos)(bh.site_expr(s)[2][0])]
     ctx.floor("received", "info.listen_addrs.retain", ret, 1, exact=True)
     whoR = set()
     for b in prog.bodies(ID):
@@ -161,124 +169,121 @@ def _check(ctx, prog):
             whoR.add(b.npath)
     ctx.ob("received", "Event::Received constructed only in the Identified arm", whoR == {bh.npath}, msg=str(sorted(whoR)))
     if ents and recv and ret:
-        ent = ents[0][1]
+        ent = ents[0]
         got = lib.count_range(bh, [ent], [recv[0].bb], lib.bbs(ret))
         ctx.ob("received", "foreign /p2p addresses removed before the event", got == (1, 1) and recv[0].bb in bh.reachable([ent]), recv[0].loc(),
                "retain calls on every path from the arm entry to the Received push: %s (expected (1, 1))" % (got,))
-        il = [l for l, n in bh.names.items() if n == "info"]
-        e = render(bh.site_expr(recv[0])[2][1])
-        ctx.ob("received", "the reported Info is the filtered Info of this connection's peer", "peer_id: peer_id, info: libp2p_identify::<protocol::Info as std::clone::Clone>::clone(info)}" in e and
-               "connection_id: connection_id," in e, recv[0].loc(), e[-160:])
-        # `info` here must be the Identified payload
-        l_info = [l for l in il if render(bh.init_expr(l)) == "event@Identified.0"]
-        a0 = bh.site_expr(ret[0])[2][0]
-        ctx.ob("received", "the filtered Info is the handler's Identified payload", len(l_info) == 1 and a0[0] == "field" and a0[1][0] == "local" and a0[1][1] == l_info[0], ret[0].loc(), render(a0))
-        cl = lib.closure_of(prog, bh, bh.site_expr(ret[0]))
+        il = bh.site_expr(ret[0])[2][0][1][1]
+        f = evt(bh.site_expr(recv[0])[2][1], "libp2p_identify::behaviour::Event", "Received")[0]
+        vals = {k: B.r(v) for k, v in f.items()}
+        ctx.ob("received", "the reported Info is the filtered Info of this connection's peer", vals.get("peer_id") == "$2" and vals.get("connection_id") == "$3" and vals.get("info") in ("clone(%%%d)" % il, "%%%d" % il), recv[0].loc(), str(vals))
+        cb, ups = P.upvar_sources(prog, bh, bh.site_expr(ret[0]))
         txt = ""
         ok = False
-        if cl is not None:
-            ctx.use(cl)
-            r0 = ret_defs(cl)
-            txt = render(r0[0][1]) if len(r0) == 1 else str(len(r0))
-            ok = txt == "libp2p_identify::behaviour::multiaddr_matches_peer_id(addr, ^peer_id)"
-            ce = [x for x in mir.walk(bh.site_expr(ret[0])) if x[0] == "closure"][0]
-            ok = ok and len(ce[2]) == 1 and ce[2][0][0] == "arg" and ce[2][0][1] == 2
+        if cb is not None:
+            ctx.use(cb)
+            r0 = P.ret_exprs(cb)
+            txt = P.Norm(cb).r(r0[0][1]) if len(r0) == 1 else str(len(r0))
+            ok = txt == "libp2p_identify::behaviour::multiaddr_matches_peer_id($2, ^0)" and len(ups) == 1 and ups[0][0] == "arg" and ups[0][1] == 2
         ctx.ob("received", "retain filters with the connection's peer id", ok, ret[0].loc(), txt)
-        # cached addresses come from the filtered list
         adds = bh.call_sites(r"PeerAddresses::add$")
         ctx.floor("received", "discovered_peers.add", adds, 1)
         for s in adds:
-            a = [render(x) for x in bh.site_expr(s)[2]]
-            it = [x for x in bh.call_sites(r"IntoIterator>::into_iter$") if render(bh.site_expr(x)[2][0]) == "info.listen_addrs"]
-            ctx.ob("received", "cached addresses are taken from the filtered list, for this peer", a[1] == "peer_id" and a[2].endswith("Iterator>::next(iter)@Some.0)") and len(it) == 1 and
-                   bh.must_pass_nodes([ents[0][1]], [it[0].bb], lib.bbs(ret)), s.loc(), str(a[1:]))
-    # ================================================================= multiaddr_matches_peer_id
+            a = bh.site_expr(s)[2]
+            it = [x for x in bh.call_sites(r"IntoIterator>::into_iter$|::iter$") if B.r(bh.site_expr(x)[2][0]) == "%%%d.listen_addrs" % il]
+            elem_ok = any(y[0] == "call" and strip_generics(y[1]).endswith("Iterator>::next") for y in mir.walk(a[2]))
+            ctx.ob("received", "cached addresses are taken from the filtered list, for this peer", B.r(a[1]) == "$2" and elem_ok and len(it) == 1 and
+                   bh.must_pass_nodes([ent], [it[0].bb], lib.bbs(ret)), s.loc(), str([B.r(x)[-70:] for x in a[1:]]))
+    # ================================================================= multiaddr_matches_peer_id(addr = $1, peer_id = $2)
     mm = ctx.body(ID, r"^libp2p_identify::behaviour::multiaddr_matches_peer_id$")
-    rd = ret_defs(mm)
+    M = P.Norm(mm)
+    rd = P.ret_exprs(mm)
+    LAST = "std::iter::Iterator::last(libp2p_core::Multiaddr::iter($1))"
     n_eq = 0
     for s, e in rd:
-        r = render(e)
-        if e[0] == "const" and e[1] == 1:
+        if P.const_val(e) == 1:
             continue
         n_eq += 1
-        ok = r == "<libp2p_core::PeerId as std::cmp::PartialEq>::eq(std::iter::Iterator::last(libp2p_core::Multiaddr::iter(addr))@Some.0@P2p.0, peer_id)"
-        ctx.ob("matches", "P2p => ids equal", ok, s.loc(), r)
+        ctx.ob("matches", "P2p => ids equal", M.r(e) == "Eq($2, %s@+@P2p)" % LAST, s.loc(), M.r(e))
     ctx.ob("matches", "floor:comparison result", n_eq == 1, nontrivial=False, msg="%d non-constant results" % n_eq)
-    p2p = lib.switch_edges_on(mm, r"^discr\(std::iter::Iterator::last\(libp2p_core::Multiaddr::iter\(addr\)\)@Some\.0\)$", {"P2p"})
+    p2p = P.variant_edges(mm, lambda e: M.r(e) == LAST + "@+", {"P2p"})
     ctx.ob("matches", "floor:P2p edge", len(p2p) == 1, nontrivial=False, msg=str(sorted(p2p)))
     for _, t in p2p:
-        consts = [s.bb for s, e in rd if e[0] == "const"]
+        consts = [s.bb for s, e in rd if P.const_val(e) is not None]
         got = lib.count_range(mm, [t], mm.return_blocks(), consts)
         ctx.ob("matches", "a trailing /p2p component is always compared", got == (0, 0), "%s:%d" % (mm.file, mm.line), "constant results on the P2p edge: %s (expected (0, 0))" % (got,))
 
-    # ================================================================= TryFrom<proto::Identify> for Info
+    # ================================================================= TryFrom<proto::Identify> for Info  (msg = $1)
     tf = ctx.body(ID, r"^libp2p_identify::<protocol::Info as std::convert::TryFrom>::try_from$")
+    T = P.Norm(tf, ids=True)
     infos = []
-    for s, e in ret_defs(tf):
+    for s, e in P.ret_exprs(tf):
         for x in mir.walk(e):
             if x[0] == "agg" and x[1] == "adt" and strip_generics(x[2]) == "libp2p_identify::protocol::Info":
                 infos.append((s, dict(x[4])))
     ctx.floor("record", "Info construction in try_from", infos, 1)
     for s, f in infos:
         la, se, pk = f["listen_addrs"], f["signed_peer_record"], f["public_key"]
-        ok = la[0] == "field" and se[0] == "field" and la[2] == "0" and se[2] == "1" and render(la[1]) == render(se[1])
+        ok = la[0] == "field" and se[0] == "field" and la[2] == "0" and se[2] == "1" and T.r(la[1]) == T.r(se[1])
         src = la[1] if ok else None
-        ctx.ob("record", "listen_addrs and signed_peer_record come from one decision", ok, s.loc(), render(la)[:120])
+        ctx.ob("record", "listen_addrs and signed_peer_record come from one decision", ok, s.loc(), T.r(la)[:120])
         if src is None:
             continue
-        ok = src[0] == "call" and strip_generics(src[1]).endswith("Option::unwrap_or_else") and src[2][0][0] == "call" and strip_generics(src[2][0][1]).endswith("Option::and_then") and \
-            render(src[2][0][2][0]) == "msg.signed_peer_record"
-        ctx.ob("record", "decision = msg.signed_peer_record.and_then(validate).unwrap_or_else(fallback)", ok, s.loc(), render(src)[:160])
+        ok = P.call_is(src, r"Option::unwrap_or_else$") and P.call_is(src[2][0], r"Option::and_then$") and T.r(src[2][0][2][0]) == "$1.signed_peer_record"
+        ctx.ob("record", "decision = msg.signed_peer_record.and_then(validate).unwrap_or_else(fallback)", ok, s.loc(), T.r(src)[:160])
         if not ok:
             continue
         val_e, fb_e = src[2][0][2][1], src[2][1]
-        ctx.ob("record", "validation is given the key that becomes Info.public_key", val_e[0] == "closure" and len(val_e[2]) == 1 and render(val_e[2][0]) == render(pk) and pk[0] == "local", s.loc(),
-               "upvar %s, Info.public_key %s" % (render(val_e[2][0]) if val_e[0] == "closure" else "?", render(pk)))
+        ctx.ob("record", "validation is given the key that becomes Info.public_key", val_e[0] == "closure" and len(val_e[2]) == 1 and T.r(val_e[2][0]) == T.r(pk) and pk[0] == "local", s.loc(),
+               "captured %s, Info.public_key %s" % (T.r(val_e[2][0]) if val_e[0] == "closure" else "?", T.r(pk)))
         val = prog.closure_body(tf, val_e[1])
         fb = prog.closure_body(tf, fb_e[1])
         ctx.use(val)
         ctx.use(fb)
-        # fallback
-        r = [render(e) for _, e in ret_defs(fb)]
-        ctx.ob("record", "fallback = (parse_listen_addrs(msg.listen_addrs), None)", r == ["tuple{0: libp2p_identify::protocol::parse_listen_addrs(^msg.listen_addrs), 1: std::option::Option::None{}}"], "%s:%d" % (fb.file, fb.line), str(r))
-        # validation closure
+        V = P.Norm(val)
+        r = [P.Norm(fb).r(e) for _, e in P.ret_exprs(fb)]
+        ok_fb = r == ["tuple{0: libp2p_identify::protocol::parse_listen_addrs(^0), 1: std::option::Option::None{}}"] and fb_e[0] == "closure" and [T.r(u) for u in fb_e[2]] == ["$1.listen_addrs"]
+        ctx.ob("record", "fallback = (parse_listen_addrs(msg.listen_addrs), None)", ok_fb, "%s:%d" % (fb.file, fb.line), str(r))
         n_pos = 0
-        for vs, ve in ret_defs(val):
-            if ve[0] == "call" and strip_generics(ve[1]).endswith("FromResidual>::from_residual"):
-                continue
-            if ve[0] == "agg" and ve[3] == "None":
+        KEYID = "libp2p_identity::PublicKey::to_peer_id(^0)"
+
+        def same_rec(c):
+            """record expression R if c is the canonical fact PeerRecord::peer_id(R) == to_peer_id(captured key)."""
+            if c is None or c[0] != "Eq":
+                return None
+            for a, b in ((c[1], c[2]), (c[2], c[1])):
+                if P.call_is(a, r"^libp2p_core::PeerRecord::peer_id$") and V.r(b) == KEYID:
+                    return a[2][0]
+            return None
+        for vs, ve in P.ret_exprs(val):
+            if P.call_is(ve, r"FromResidual>::from_residual$") or (ve[0] == "agg" and ve[3] == "None"):
                 continue
             n_pos += 1
-            cond = payload = None
-            guarded_by_edge = False
-            if ve[0] == "call" and strip_generics(ve[1]).endswith("bool::then_some"):
-                cond, payload = ve[2][0], ve[2][1]
-            elif ve[0] == "call" and strip_generics(ve[1]).endswith("bool::then"):
-                cond, payload = ve[2][0], None
+            rec = payload = None
+            how = ""
+            if P.call_is(ve, r"bool::then_some$"):
+                rec, payload, how = same_rec(P.cmpnf(ve[2][0])), ve[2][1], "then_some"
             elif ve[0] == "agg" and ve[3] == "Some":
                 payload = dict(ve[4])["0"]
-                for text, labels, _, c in val.guards_on_all_paths(vs.bb):
-                    if labels == frozenset({"true"}) and c[0] == "call" and strip_generics(c[1]).endswith("PartialEq>::eq"):
-                        cond = c
-                        guarded_by_edge = True
-            ok = cond is not None and cond[0] == "call" and re.search(r"<libp2p_core::PeerId as std::cmp::PartialEq>::eq$", strip_generics(cond[1])) is not None
-            rec = None
-            if ok:
-                a = [render(x) for x in cond[2]]
-                pid = [x for x in cond[2] if x[0] == "call" and strip_generics(x[1]) == "libp2p_core::PeerRecord::peer_id"]
-                key = [x for x in cond[2] if render(x) == "libp2p_identity::PublicKey::to_peer_id(^identify_public_key)"]
-                ok = len(pid) == 1 and len(key) == 1
-                rec = pid[0][2][0] if pid else None
+                cands = []
+                for bi in val.live:
+                    info = val.switch_info(bi)
+                    c = P.cmpnf(info[0]) if info else None
+                    if c is not None and c[0] in ("Eq", "Ne") and same_rec(("Eq", c[1], c[2])) is not None:
+                        cands.append(same_rec(("Eq", c[1], c[2])))
+                edges = P.rel_edges(val, lambda op, a, b: same_rec((op, a, b)) is not None)
+                if cands and P.must_pass(val, vs.bb, edges):
+                    rec, how = cands[0], "if-guard"
+            ok = rec is not None
             ctx.ob("record", "signed addresses only behind the same-peer test", ok, vs.loc(),
-                   ("Some(..) only if peer_record.peer_id() == identify_public_key.to_peer_id()" + (" (if-guard)" if guarded_by_edge else " (then_some)")) if ok else
-                   "a Some(..) result of the validation closure is not conditioned on peer_record.peer_id() == identify_public_key.to_peer_id(): %s" % render(ve)[:160])
+                   ("Some(..) only if peer_record.peer_id() == identify_public_key.to_peer_id() (%s)" % how) if ok else
+                   "a Some(..) result of the validation closure is not conditioned on peer_record.peer_id() == identify_public_key.to_peer_id(): %s" % V.r(ve)[:160])
             if rec is not None:
-                rr = render(rec)
-                ctx.ob("record", "the record is a verified one (from_signed_envelope(..).ok()?)", re.search(r"^<std::option::Option as std::ops::Try>::branch\(std::result::Result::ok\(libp2p_core::PeerRecord::from_signed_envelope(_interop)?\(", rr) is not None and
-                       rr.endswith("@Continue.0"), vs.loc(), rr[:140])
+                rr = V.r(rec)
+                ctx.ob("record", "the record is a verified one (from_signed_envelope(..) succeeded)", re.match(r"^(std::result::Result::ok\()?libp2p_core::PeerRecord::from_signed_envelope(_interop)?\(.*\)@\+$", rr) is not None, vs.loc(), rr[:140])
                 if payload is not None and payload[0] == "agg":
                     pf = dict(payload[4])
-                    a0, a1 = render(pf.get("0", ("unknown", "?"))), render(pf.get("1", ("unknown", "?")))
+                    a0, a1 = V.r(pf.get("0", ("unknown", "?"))), V.r(pf.get("1", ("unknown", "?")))
                     ctx.ob("record", "the reported addresses and envelope are those of the tested record",
                            a0 == "std::slice::to_vec(libp2p_core::PeerRecord::addresses(%s))" % rr and a1 == "std::option::Option::Some{0: libp2p_core::PeerRecord::into_signed_envelope(%s)}" % rr, vs.loc(), a0[:80])
                 else:
@@ -290,14 +295,15 @@ def _check(ctx, prog):
     for b in prog.bodies(ID):
         if b.call_sites(r"PeerRecord::(addresses|from_signed_envelope|from_signed_envelope_interop)$"):
             users.add(b.npath)
-    ctx.ob("record", "signed records are consumed only by the validation closure", len(users) == 1 and next(iter(users)).startswith(tf.npath + "::{closure"), msg=str(sorted(users)))
-    # PushInfo has no signed record and its addresses come from the plain list
+    ctx.ob("record", "signed records are consumed only inside Info::try_from", len(users) == 1 and next(iter(users)).startswith(tf.npath), msg=str(sorted(users)))
     pi = ctx.body(ID, r"^libp2p_identify::<protocol::PushInfo as std::convert::TryFrom>::try_from$")
-    txt = " ".join(render(e) for _, e in ret_defs(pi))
-    ctx.ob("record", "push messages never use signed_peer_record", "signed_peer_record" not in txt and "listen_addrs: libp2p_identify::protocol::parse_listen_addrs(msg.listen_addrs)" in txt, "%s:%d" % (pi.file, pi.line), txt[:120])
+    PI = P.Norm(pi)
+    pf = [dict(x[4]) for _, e in P.ret_exprs(pi) for x in mir.walk(e) if x[0] == "agg" and x[1] == "adt" and strip_generics(x[2]) == "libp2p_identify::protocol::PushInfo"]
+    txt = " ".join(PI.r(e) for _, e in P.ret_exprs(pi))
+    ctx.ob("record", "push messages never use signed_peer_record", "signed_peer_record" not in txt and len(pf) == 1 and PI.r(pf[0].get("listen_addrs", ("unknown", "?"))) == "libp2p_identify::protocol::parse_listen_addrs($1.listen_addrs)", "%s:%d" % (pi.file, pi.line), txt[:120])
     adt = prog.adt(ID, r"^libp2p_identify::protocol::PushInfo$")
-    fields = [f["n"] for v in adt.get("variants", []) for f in v.get("fields", [])]
-    ctx.ob("record", "PushInfo has no signed-record field", fields and "signed_peer_record" not in fields, msg=str(fields))
+    tys = [f["ty"] for v in adt.get("variants", []) for f in v.get("fields", [])]
+    ctx.ob("record", "PushInfo has no signed-record field", tys and not any("SignedEnvelope" in t or "PeerRecord" in t for t in tys), msg=str(tys)[:200])
     mg = ctx.body(ID, r"^libp2p_identify::protocol::Info::merge$")
     ws = [s for s in mg.field_write_sites("signed_peer_record")]
     ctx.ob("record", "merge never installs a signed record", not ws, "%s:%d" % (mg.file, mg.line), "%d writes" % len(ws))
